@@ -179,6 +179,9 @@ func (l LossItvls) StateAt(nowS int) lossState {
 	return lossUnknown
 }
 
+// maxLossItvlDurS is the longest interval of a loss pattern (a year). It also keeps the sum of a pattern far from overflow.
+const maxLossItvlDurS = 366 * 24 * 3600
+
 // CreateLossItvls creates a LossItvls from a pattern like u20d10 (20s up, 10 down)
 func CreateLossItvls(pattern string) (LossItvls, error) {
 	li := LossItvls{}
@@ -211,6 +214,9 @@ func CreateLossItvls(pattern string) (LossItvls, error) {
 				return LossItvls{}, fmt.Errorf("invalid loss pattern %q", pattern)
 			}
 			dur = dur*10 + int(digit)
+			if dur > maxLossItvlDurS {
+				return LossItvls{}, fmt.Errorf("too long interval in loss pattern %q", pattern)
+			}
 		}
 	}
 	if state != lossUnknown {
